@@ -11,13 +11,19 @@ from aegmon.refs import wcs_zenithal as wz
 
 
 def gen_field(rng, n_sources=20, shape=(160, 160), blends=0.3, faint=0.2, negative=0.2, tiny=3, nan_blocks=1,
-              edge=2, plateau=False, isolated=False, noise=True, snr_range=(8, 200)):
+              edge=2, plateau=False, isolated=False, noise=True, snr_range=(8, 200), far_from_crval=False):
     proj = str(rng.choice(wz.PROJECTIONS))
     scale = float(10 ** rng.uniform(np.log10(2.0), np.log10(30.0)) / 3600.0)
     rows, cols = shape
     dec0 = float(rng.uniform(-75, 75))
     ra0 = float(rng.choice([0.0, 359.99])) if rng.random() < 0.2 else float(rng.uniform(0, 360))
     crpix = (float(rng.uniform(1, cols)), float(rng.uniform(1, rows)))
+    if far_from_crval:
+        # a cut-out of a wide-field mosaic: the reference pixel lies 5-20 degrees outside the grid
+        d = float(rng.uniform(5.0, 20.0)) / scale
+        t = float(rng.uniform(0, 2 * np.pi))
+        crpix = (cols / 2.0 + d * np.cos(t), rows / 2.0 + d * np.sin(t))
+        dec0 = float(rng.uniform(-40, 40))
     beam_px = float(rng.uniform(3.5, 5.0))
     bmaj = beam_px * scale
     bmin = bmaj * float(rng.uniform(0.7, 1.0))
